@@ -221,7 +221,7 @@ def run_history(case: dict[str, Any]) -> dict[str, Any]:
                 elif kind == "rst":
                     c.rst(0.0)
                 elif kind == "discreq":
-                    if c.noise and (c.resp is None or c.resp.tx is None):
+                    if not c.can_send_encrypted():
                         skipped += 1
                         continue
                     c.send("DisconnectRequest", _delay=0.0)
